@@ -336,9 +336,9 @@ func classify(c *facet.Ctx, cs convgen.Case, converted bool) {
 const ntRule = "target differs from the value's type in at least one position and the conversion succeeds; distinct = hash of the JSON of (value spec, target spec)"
 
 var (
-	fullVals = gen.ValOpts{Null: true, Unknown: true, Marks: true}
-	baseOpts = convgen.Opts{Type: gen.TypeOpts{Depth: 2, Dynamic: true}, Val: fullVals}
-	capsOpts = convgen.Opts{Type: gen.TypeOpts{Depth: 2, Dynamic: true, Capsule: true}, Val: fullVals}
+	fullVals = gen.ValOpts{Null: true, Unknown: true, Marks: true, Long: 24}
+	baseOpts = convgen.Opts{Type: gen.TypeOpts{Depth: 2, Dynamic: true, Long: 12}, Val: fullVals}
+	capsOpts = convgen.Opts{Type: gen.TypeOpts{Depth: 2, Dynamic: true, Capsule: true, Long: 12}, Val: fullVals}
 )
 
 func genCase(o convgen.Opts) func(t *rapid.T) convgen.Case {
@@ -534,7 +534,7 @@ func init() {
 	})
 
 	// ------------------------------------------------------------ unknown-null/sound
-	soundOpts := convgen.Opts{Type: gen.TypeOpts{Depth: 2, Dynamic: true}, Val: gen.ValOpts{Null: true, Simple: true}}
+	soundOpts := convgen.Opts{Type: gen.TypeOpts{Depth: 2, Dynamic: true, Long: 12}, Val: gen.ValOpts{Null: true, Simple: true, Long: 24}}
 	soundOptsFull := convgen.Opts{Type: gen.TypeOpts{Depth: 2, Dynamic: true}, Val: gen.ValOpts{Null: true}}
 	facet.Register(facet.F[SoundIn]{
 		Prop: "C08", Name: "unknown-null/sound",
@@ -640,7 +640,7 @@ func init() {
 	})
 
 	// ------------------------------------------------------------ safe/total
-	totalOpts := convgen.Opts{Type: gen.TypeOpts{Depth: 2, Dynamic: true}, Val: fullVals, NoDynamic: true, SafeBias: true, NoUnrelated: true, SameShare: 2}
+	totalOpts := convgen.Opts{Type: gen.TypeOpts{Depth: 2, Dynamic: true, Long: 12}, Val: fullVals, NoDynamic: true, SafeBias: true, NoUnrelated: true, SameShare: 2}
 	facet.Register(facet.F[TotalIn]{
 		Prop: "C08", Name: "safe/total",
 		Rule:  "source type S = type of a generated value, target = S edited with a bias to edits that have a safe conversion and without introducing placeholders; 1+3 values of exactly type S (known, null, unknown, marked, nested); non-trivial when GetConversion(S,T) is offered, T is placeholder-free and differs from S; then it must succeed on every value",
